@@ -64,6 +64,16 @@ def programs(tier: str):
                     },
                     "cancels": cancels,
                 }
+    # a clean-up that fails with a BaseException which is not an Exception
+    for other in ("ok", "raise", "susp_ok"):
+        for ending, cancels in bodies:
+            for k in (1, 2):
+                disp = [{"enter": "ok", "exit": "raise_base", "yields": "none"}]
+                if k == 2:
+                    disp.append({"enter": "ok", "exit": other, "yields": "none"})
+                elif other != "ok":
+                    continue
+                yield {"block": {"kind": "ascope", "supply": [], "disp": disp, "pause": bool(cancels), "ending": ending}, "cancels": cancels}
     if tier == "thorough":
         default = {"enter": "ok", "exit": "ok", "yields": "none"}
         beh = [b for b in _behaviours(False) if b != default and b["yields"] == "none"]
@@ -203,7 +213,7 @@ def execute(program, ch: Chooser) -> Result:  # noqa: C901, PLR0912, PLR0915
         raised = r.raised.get(0)
         if raised is not None and body_idx is not None and not r.exit_errors.get(0) and caught is not raised:
             viols.append(viol("body-exception", "replaced", "the body's exception object", repr(caught)[:80]))
-        failing = sum(1 for d in ds if "raise" in d.spec["enter"] or "raise" in d.spec["exit"])
+        failing = sum(1 for d in ds if "raise" in d.spec["enter"] or "raise" in d.spec["exit"])  # incl. raise_base
         susp = sum(1 for d in ds if "susp" in d.spec["enter"] or "susp" in d.spec["exit"])
         nontrivial = failing > 0 or susp > 0 or raised is not None or cancelled
         outcome = f"k={len(ds)}/fail={min(failing, 2)}/susp={min(susp, 2)}/body={'ran' if body_idx is not None else 'skipped'}/caught={type(caught).__name__ if caught else None}/c={cancelled}"
